@@ -602,6 +602,6 @@ Example datadog_metric_points_without_timestamp_computed :
   let doc := JObj [("series", JArr [JObj [("metric", JStr "m"); ("points", JArr [JObj [("value", JNum 5%N None)]; JObj [("value", JNum 6%N None)];
                                             JObj [("timestamp", JNum 0%N (Some 1700000000)); ("value", JNum 7%N None)]; JObj [("value", JNum 8%N None)]])]])]%string in
   ddmet_document doc = WOk [DS (Some "m"%string) [] [(1700000000, 7%N); (1700000000, 8%N)] [5%N; 6%N]] /\
-  map e_ts (entries_ddmet (CK 0 9 [4]) [DS (Some "m"%string) [] [(1700000000, 7%N); (1700000000, 8%N)] [5%N; 6%N]]) = [4; 4; 1700000000000000000; 1700000000000000000].
+  map e_ts (entries_ddmet (CK 0 9 [4; 4]) [DS (Some "m"%string) [] [(1700000000, 7%N); (1700000000, 8%N)] [5%N; 6%N]]) = [4; 4; 1700000000000000000; 1700000000000000000].
 Proof. vm_compute. split; reflexivity. Qed.
 
